@@ -103,6 +103,8 @@ enum Op {
     /// a block that needs a further chunk
     AllocBig(u8),
     DropGuard(u8),
+    /// the newest guard is dropped by a panic that unwinds through its owner: the arena goes back to the pool all the same
+    DropGuardUnwinding,
     Reset,
     ResetToStart,
 }
@@ -121,6 +123,7 @@ impl Op {
             Op::Alloc(i) => format!("alloc.{i}"),
             Op::AllocBig(i) => format!("alloc_big.{i}"),
             Op::DropGuard(i) => format!("drop.{i}"),
+            Op::DropGuardUnwinding => "drop_unwinding".into(),
             Op::Reset => "reset".into(),
             Op::ResetToStart => "reset_to_start".into(),
         }
@@ -142,6 +145,7 @@ impl Op {
             "alloc" => Op::Alloc(a),
             "alloc_big" => Op::AllocBig(a),
             "drop" => Op::DropGuard(a),
+            "drop_unwinding" => Op::DropGuardUnwinding,
             "reset" => Op::Reset,
             "reset_to_start" => Op::ResetToStart,
             _ => return None,
@@ -165,6 +169,7 @@ fn alphabet() -> Vec<Op> {
         Op::AllocBig(1),
         Op::DropGuard(0),
         Op::DropGuard(1),
+        Op::DropGuardUnwinding,
         Op::Reset,
         Op::ResetToStart,
     ]
@@ -318,6 +323,23 @@ fn run_inner(hist: &[Op]) -> Outcome {
                     *a = cs;
                 }
                 drop(g);
+            }
+            Op::DropGuardUnwinding => {
+                if guards.is_empty() {
+                    result = Some(Outcome::Disabled(i));
+                    break;
+                }
+                let g = guards.pop().unwrap();
+                let cs = chunks_of(&g);
+                if let Some(a) = arenas.iter_mut().find(|a| !a.is_disjoint(&cs)) {
+                    *a = cs;
+                }
+                let r = catch_unwind(AssertUnwindSafe(move || {
+                    let _owner = g;
+                    std::panic::resume_unwind(Box::new("a user of the pool panics"));
+                }));
+                debug_assert!(r.is_err());
+                let _ = vcore::crash::take_last_panic();
             }
             Op::Reset | Op::ResetToStart => {
                 if !guards.is_empty() {
@@ -559,7 +581,7 @@ fn main() {
                 .set("traces_validated_against_impl", ev)
                 .set("evaluations", ev)
                 .set("distinct_nontrivial", nt)
-                .set("rule", "sequential half of C19: every enabled history up to the depth bound over {get, try_get, get_with_size, get_with_capacity, get with a panicking base allocator (poisons the pool mutex), try_get with a refusing base allocator, allocate a small / chunk-growing patterned block through the oldest / newest live guard, drop the oldest / newest guard, reset, reset_to_start} on the real BumpPool with the real std Mutex; after every step: live guards own disjoint arenas, a new arena is only created when none is idle (arenas created <= peak live guards), nothing is released to the base allocator before reset / drop, all blocks allocated since the last reset are intact and lie in granted memory, reset / reset_to_start leave every arena empty with <= 1 / the same number of chunks, and after dropping the pool every chunk was released exactly once; non-trivial = an arena was reused, the mutex was poisoned, two guards were alive, or a reset discarded data")
+                .set("rule", "sequential half of C19: every enabled history up to the depth bound over {get, try_get, get_with_size, get_with_capacity, get with a panicking base allocator (poisons the pool mutex), try_get with a refusing base allocator, allocate a small / chunk-growing patterned block through the oldest / newest live guard, drop the oldest / newest guard, drop the newest guard by a panic that unwinds through its owner, reset, reset_to_start} on the real BumpPool with the real std Mutex; after every step: live guards own disjoint arenas, a new arena is only created when none is idle (arenas created <= peak live guards), nothing is released to the base allocator before reset / drop, all blocks allocated since the last reset are intact and lie in granted memory, reset / reset_to_start leave every arena empty with <= 1 / the same number of chunks, and after dropping the pool every chunk was released exactly once; non-trivial = an arena was reused, the mutex was poisoned, two guards were alive, or a reset discarded data")
                 .set("samples", vec!["get alloc.0 get_panics drop.0 get".to_string(), "get get alloc_big.1 drop.0 drop.0 reset".to_string()])
                 .set("exhaustive", !capped.load(Ordering::Relaxed))
                 .set("depth_bound", depth)
